@@ -148,6 +148,9 @@ class Execution:
             return None
         if not self.is_point(frame.f_code):
             return None
+        ff = getattr(self.is_point, 'frame_filter', None)
+        if ff is not None and not ff(frame):
+            return None
         if self.granularity == 'opcode':
             frame.f_trace_opcodes = True
         want = 'opcode' if self.granularity == 'opcode' else 'line'
